@@ -12,8 +12,9 @@ import (
 )
 
 type cexpr struct {
-	op   string // var field as asok path del
+	op   string // var field as asok path del str idx
 	x    string
+	n    int
 	e    *cexpr
 	k    string
 	site int
@@ -53,6 +54,10 @@ func (e *cexpr) coq() string {
 		return fmt.Sprintf("EPath (%s) [%s]", e.e.coq(), strings.Join(ks, "; "))
 	case "del":
 		return fmt.Sprintf("EDel (%s) %s", e.e.coq(), kty.CoqString(e.k))
+	case "str":
+		return "EStr " + kty.CoqString(e.k)
+	case "idx":
+		return fmt.Sprintf("EIdx %d (%s) %d", e.site, e.e.coq(), e.n)
 	}
 	panic("cexpr op " + e.op)
 }
@@ -61,15 +66,15 @@ func (e *cexpr) hasAs() bool {
 	if e == nil {
 		return false
 	}
-	if e.op == "as" {
-		return true
+	if e.op == "as" || e.op == "idx" {
+		return true // an operation that can panic
 	}
 	return e.e.hasAs()
 }
 
 func (e *cexpr) sites(out map[int]bool) {
 	for ; e != nil; e = e.e {
-		if e.op == "as" {
+		if e.op == "as" || e.op == "idx" {
 			out[e.site] = true
 		}
 	}
